@@ -1,4 +1,4 @@
-//@unit tier=quick isolation=yes
+//@unit tier=quick
 //@include prelude/uses.rs
 use std::fmt::Display;
 use std::iter::{Skip, Take};
@@ -23,6 +23,8 @@ pub open spec fn exactly_binary<T: RealNumber>(s: Seq<T>) -> bool {
 }
 
 // documented domain of the scores: `==` of T is symmetric and transitive on them (no NaN-like values)
+// (opaque: get_score's loops are not isolated, so the whole body is one context; the two quantifiers are revealed in the lemmas only)
+#[verifier::opaque]
 pub open spec fn eq_per_on<T: PartialEq>(s: Seq<T>) -> bool {
     &&& forall|i: int, j: int| #![trigger s[i].eq_spec(&s[j])]
             0 <= i < s.len() && 0 <= j < s.len() && s[i].eq_spec(&s[j]) ==> s[j].eq_spec(&s[i])
@@ -111,6 +113,8 @@ proof fn lemma_per_gather<T: PartialOrd>(before: Seq<T>, after: Seq<T>, idx: Seq
     ensures
         eq_per_on(after),
 {
+    reveal(eq_per_on);
+    reveal(is_argsort_of);
     assert forall|i: int, j: int| #![trigger after[i].eq_spec(&after[j])]
         0 <= i < after.len() && 0 <= j < after.len() && after[i].eq_spec(&after[j]) implies after[j].eq_spec(&after[i]) by {
         assert(after[i] == before[idx[i] as int]);
@@ -128,6 +132,30 @@ proof fn lemma_per_gather<T: PartialOrd>(before: Seq<T>, after: Seq<T>, idx: Seq
     }
 }
 
+// what get_score uses of the argsort contract: lengths, indices in range, `after` is `before` gathered by idx
+proof fn lemma_argsort_gather<T: PartialOrd>(before: Seq<T>, after: Seq<T>, idx: Seq<usize>)
+    requires
+        is_argsort_of(before, after, idx),
+    ensures
+        idx.len() == before.len(),
+        after.len() == before.len(),
+        forall|i: int| 0 <= i < idx.len() ==> (#[trigger] idx[i]) < before.len(),
+        after =~= gather(before, idx),
+{
+    reveal(is_argsort_of);
+}
+
+proof fn lemma_eq_sym<T: PartialEq>(s: Seq<T>, i: int, j: int)
+    requires
+        eq_per_on(s),
+        0 <= i < s.len(), 0 <= j < s.len(),
+        s[i].eq_spec(&s[j]),
+    ensures
+        s[j].eq_spec(&s[i]),
+{
+    reveal(eq_per_on);
+}
+
 // inside a block [i, j) whose entries all equal s[i], adjacent entries are equal
 proof fn lemma_adjacent_in_block<T: PartialEq>(s: Seq<T>, i: int, j: int, k: int)
     requires
@@ -137,6 +165,7 @@ proof fn lemma_adjacent_in_block<T: PartialEq>(s: Seq<T>, i: int, j: int, k: int
     ensures
         s[k].eq_spec(&s[k + 1]),
 {
+    reveal(eq_per_on);
     assert(s[k + 1].eq_spec(&s[i]));
     assert(s[i].eq_spec(&s[k + 1]));
     if k > i {
@@ -154,6 +183,7 @@ proof fn lemma_block_end<T: PartialEq>(s: Seq<T>, i: int, j: int)
     ensures
         !s[j - 1].eq_spec(&s[j]),
 {
+    reveal(eq_per_on);
     if s[j - 1].eq_spec(&s[j]) {
         assert(s[j].eq_spec(&s[j - 1]));
         if j - 1 > i {
@@ -221,6 +251,12 @@ impl AUC {
                 eq_per_on(before) && #[trigger] is_argsort_of(before, after, idx) implies eq_per_on(after) by {
                 lemma_per_gather(before, after, idx);
             }
+            // ... and the sorted vector is the scores gathered by the returned indices, which are in range
+            assert forall|before: Seq<T>, after: Seq<T>, idx: Seq<usize>| #[trigger] is_argsort_of(before, after, idx) implies
+                idx.len() == before.len() && after.len() == before.len() && after == gather(before, idx)
+                && (forall|i: int| 0 <= i < idx.len() ==> (#[trigger] idx[i]) < before.len()) by {
+                lemma_argsort_gather(before, after, idx);
+            }
         }
 //@loop 1
             invariant
@@ -264,7 +300,7 @@ impl AUC {
                     // of its positions, and it has at least two entries
                     let j = i as int;
                     assert(y_pred@[i0].eq_spec(&y_pred@[i0 + 1]));
-                    assert(y_pred@[i0 + 1].eq_spec(&y_pred@[i0]));
+                    lemma_eq_sym(y_pred@, i0, i0 + 1);
                     assert(j >= i0 + 2);
                     assert forall|k: int| i0 <= k < j implies run_start(y_pred@, k) == i0 && run_end(y_pred@, k) == j by {
                         lemma_run_start_in_block(y_pred@, i0, j, k);
